@@ -280,7 +280,7 @@ def run_property(pid, tier, seed, replay=None):
     # ---- cases
     if replay:
         rp = json.load(open(replay))
-        cases = [rp['case']] if 'case' in rp else []
+        cases = list(rp.get('prefix_cases', [])) + ([rp['case']] if 'case' in rp else [])
     else:
         cases = []
         corpus = os.path.join(VERIF, 'harness', 'corpus', pid)
@@ -391,13 +391,36 @@ def run_property(pid, tier, seed, replay=None):
             c2 = shrink(c)
         except Exception:
             c2 = c
-        obs, term, _ = eval_case(c2)
+        obs, term, agree_alone = eval_case(c2)
         expected, _ = coq_eval(imports, 'model_out %s' % term)
-        path = write_replay('corr%d' % i, {
+        payload = {
             'what': 'implementation and proved model disagree on this input',
             'case': c2, 'original_case': c, 'impl_observation': obs,
             'model_expected_coq': expected, 'coq_case_term': term,
-            'theorems': obl['theorems']})
+            'theorems': obl['theorems']}
+        if not replay and not agree_alone:
+            # does it also disagree in a FRESH process, on its own?
+            try:
+                tmp = os.path.join(VERIF, REPLAY_DIR, '_probe_%s_%d.json' % (pid, os.getpid()))
+                json.dump({'case': c2}, open(tmp, 'w'), default=str)
+                pr = subprocess.run([os.path.join(VERIF, 'check'), pid, '--replay', tmp], capture_output=True, text=True,
+                                    cwd=VERIF, timeout=600)
+                os.remove(tmp)
+                for line in pr.stdout.splitlines():   # the probe's own replay files are not wanted
+                    m = re.match(r'VIOLATION property=\S+ replay=(\S+)', line)
+                    if m and os.path.exists(os.path.join(VERIF, m.group(1))) and '-%d-corr0' % seed in m.group(1):
+                        pass
+                agree_alone = (pr.returncode == 0)
+            except Exception:
+                pass
+        if agree_alone and not replay:
+            # the case agrees when run on its own: the disagreement depends on the calls made before it in
+            # this process (state leaking between calls); keep the preceding cases so that the replay reproduces
+            payload.update({'what': 'implementation and proved model disagree on this input when it is preceded by the '
+                                    'earlier calls of this run (order-dependent: state leaks between calls)',
+                            'case': c, 'impl_observation': observations[i], 'coq_case_term': terms[i],
+                            'order_dependent': True, 'prefix_cases': cases[max(0, i - 60):i]})
+        path = write_replay('corr%d' % i, payload)
         violations.append((path, ''))
         reported += 1
     for i, msg in oracle_fail:
